@@ -83,7 +83,7 @@ Fixpoint mism (i : nat) (cs : list (word * bool * N * str * word)) : list nat :=
 
 def word_leg(ctx, binp, n, legname):
     """code leg at level W: returns nothing, records ctx.leg / ctx.fail."""
-    rc, rows, err = ctx.jsonl([binp, "words", "-seed", str(ctx.seed), "-n", str(n)], timeout=300)
+    rc, rows, err = ctx.jsonl([binp, "words", "-seed", str(ctx.seed), "-n", str(n), "-tier", ctx.tier], timeout=300)
     if rc != 0 or not rows:
         ctx.broken.append(("harness-run", "words leg failed rc=%d %s" % (rc, err[-600:])))
         return
